@@ -42,9 +42,12 @@ fn unpair(events: &[Event], only: Option<usize>) -> Vec<Event> {
     let mut k = 0;
     for e in events {
         match e {
-            Event::ExpandPair { a_tid, a_input, b_tid, b_input, .. } if only.map(|o| o == k).unwrap_or(true) => {
+            Event::ExpandPair { a_tid, a_input, b_tid, b_input, third, .. } if only.map(|o| o == k).unwrap_or(true) => {
                 out.push(Event::Expand { tid: *a_tid, input: *a_input });
                 out.push(Event::Expand { tid: *b_tid, input: *b_input });
+                if let Some((c_tid, c_input)) = third {
+                    out.push(Event::Expand { tid: *c_tid, input: *c_input });
+                }
                 k += 1;
             },
             Event::ExpandPair { .. } => {
@@ -62,7 +65,7 @@ fn threads_ok(events: &[Event]) -> bool {
     let spawned = |t: u32| t == 0 || events.iter().any(|s| matches!(s, Event::Spawn { tid } if *tid == t));
     events.iter().all(|e| match e {
         Event::Expand { tid, .. } | Event::ExpandTokens { tid, .. } | Event::Perturb { tid, .. } | Event::Order { tid, .. } | Event::OrderAt { tid, .. } => spawned(*tid),
-        Event::ExpandPair { a_tid, b_tid, .. } => *a_tid != 0 && *b_tid != 0 && spawned(*a_tid) && spawned(*b_tid),
+        Event::ExpandPair { a_tid, b_tid, third, .. } => *a_tid != 0 && *b_tid != 0 && spawned(*a_tid) && spawned(*b_tid) && third.map(|t| t.0 != 0 && spawned(t.0)).unwrap_or(true),
         _ => true,
     })
 }
@@ -238,6 +241,15 @@ pub fn minimise(env: &Env, start: MiniWorld, item: Option<Item>, d0: Divergence,
         c.bad.events.retain(|e| !matches!(e, Event::Perturb { .. }));
         attempt!("drop heap perturbations", c);
     }
+    if cur.bad.events.iter().any(|e| matches!(e, Event::ExpandPair { third: Some(_), .. })) {
+        let mut c = cur.clone();
+        for e in c.bad.events.iter_mut() {
+            if let Event::ExpandPair { third, .. } = e {
+                *third = None;
+            }
+        }
+        attempt!("concurrent groups of three reduced to pairs", c);
+    }
     if cur.bad.events.iter().any(|e| matches!(e, Event::ExpandPair { .. })) {
         // no concurrency: every pair becomes two expansions one after the other
         let mut c = cur.clone();
@@ -278,7 +290,7 @@ pub fn minimise(env: &Env, start: MiniWorld, item: Option<Item>, d0: Divergence,
     {
         // history: only the target expansion (keeping thread + order set-up for its thread)
         let last = cur.bad.events.iter().rposition(|e| matches!(e, Event::Expand { input, .. } | Event::ExpandTokens { input, .. } if *input == target));
-        let in_pair = cur.bad.events.iter().any(|e| matches!(e, Event::ExpandPair { a_input, b_input, .. } if *a_input == target || *b_input == target));
+        let in_pair = cur.bad.events.iter().any(|e| matches!(e, Event::ExpandPair { a_input, b_input, third, .. } if *a_input == target || *b_input == target || third.map(|t| t.1 == target).unwrap_or(false)));
         if let (Some(last), false) = (last, in_pair) {
             let tid = match &cur.bad.events[last] {
                 Event::Expand { tid, .. } | Event::ExpandTokens { tid, .. } => *tid,
@@ -329,7 +341,7 @@ pub fn minimise(env: &Env, start: MiniWorld, item: Option<Item>, d0: Divergence,
                 }
                 let end = (start + chunk).min(evs.len());
                 let mut c = cur.clone();
-                let keep = |e: &Event| matches!(e, Event::Spawn { .. } | Event::Order { .. }) || matches!(e, Event::Expand { input, .. } | Event::ExpandTokens { input, .. } if *input == target) || matches!(e, Event::ExpandPair { a_input, b_input, .. } if *a_input == target || *b_input == target);
+                let keep = |e: &Event| matches!(e, Event::Spawn { .. } | Event::Order { .. }) || matches!(e, Event::Expand { input, .. } | Event::ExpandTokens { input, .. } if *input == target) || matches!(e, Event::ExpandPair { a_input, b_input, third, .. } if *a_input == target || *b_input == target || third.map(|t| t.1 == target).unwrap_or(false));
                 let ev: Vec<Event> = evs.iter().enumerate().filter(|(i, e)| *i < start || *i >= end || keep(e)).map(|(_, e)| e.clone()).collect();
                 if ev.len() == evs.len() {
                     start = end;
